@@ -23,7 +23,6 @@ import (
 	"fmt"
 	"image"
 	"image/color"
-	"strconv"
 	"strings"
 
 	"verif/mc"
@@ -84,7 +83,8 @@ func (s *symbol) hints(margin int) hintMap {
 func (s *symbol) render(w, h, margin int) (out *gozxing.BitMatrix, err error, pmsg, site string) {
 	hints := s.hints(margin)
 	if margin != defaultMargin && (w+h+margin)%3 == 0 {
-		hints[gozxing.EncodeHintType_MARGIN] = strconv.Itoa(margin) // the documented string spelling, on a third of the requests
+		// the documented string spelling, on a third of the requests, in every form strconv.Atoi reads
+		hints[gozxing.EncodeHintType_MARGIN] = fmt.Sprintf([]string{"%d", "%02d", "%03d", "+%d"}[((w+h)/3)%4], margin)
 	}
 	pmsg, site = mc.Guard(func() {
 		out, err = s.newWriter().Encode(s.Content, s.format, w, h, hints)
@@ -941,7 +941,7 @@ func main() {
 	chk.Assume("Data Matrix has no quiet zone and ignores MARGIN: requested size if width >= columns and height >= rows, otherwise exactly the bare symbol at module size 1")
 	chk.Assume("1-D quiet zone = margin modules in total (left + right), image height = max(requested,1), bars span every row")
 	chk.Assume("no MARGIN hint (weaker reading): the margin in force is the one the writer itself shows at 0x0 without hints; it must be at least the documented default (QR 4, EAN/UPC 9, other 1-D 10) and all other sizes must follow the formula with that same margin; a larger default is not reported")
-	chk.Assume("the MARGIN hint is given as an int, and as its decimal string (the other documented spelling) on the requests with (width+height+margin) divisible by 3; both must follow the same formula")
+	chk.Assume("the MARGIN hint is given as an int, and as a decimal string (the other documented spelling: plain, zero-padded to 2 and 3 digits, with a plus sign - everything strconv.Atoi reads as that number) on the requests with (width+height+margin) divisible by 3; all must follow the same formula")
 	chk.Assume("domain: width, height >= 0 and MARGIN an int in 0..20; negative values and other hint spellings belong to C12")
 	if chk.ReplayFile() != "" {
 		replay()
